@@ -23,6 +23,11 @@
 (*   decl    position in the declared list (0: not declared - a decoy)     *)
 (*   rel     position in the relationship / manifest listing (0: none)     *)
 (*   zip     position among the archive members                            *)
+(*   present FALSE: the member is ABSENT from the archive.  A declared     *)
+(*           part whose member is absent is not readable: it has no page,  *)
+(*           it is not counted, and nothing else may be shown in its place *)
+(*           (e.g. a member that merely carries the conventional name      *)
+(*           sheet<position>.xml)                                          *)
 (* The three orders (decl, n = file-name order, zip) are independent.      *)
 (*                                                                         *)
 (* The reader presents one page per step (action ReadNext).                *)
@@ -31,6 +36,8 @@
 (*                          the order of the number in its file name (what *)
 (*                          a reader that never consults the list does)    *)
 (*   OrderBy = "zip"      : take them in archive order                     *)
+(*   OrderBy = "convention": declared list, but an unreadable reference   *)
+(*                          falls back to the conventional file name      *)
 (*   Decode  = "path"     : %XX decoding of a URL path ('+' is a plus)     *)
 (*   Decode  = "query"    : form decoding ('+' becomes a space)            *)
 (* TLC proves the properties for declared/path and must refute the others. *)
@@ -72,13 +79,14 @@ PartSet(p)  == {p.parts[i] : i \in 1..Len(p.parts)}
 Declared(p) == {x \in PartSet(p) : x.decl > 0}
 NDecl(p)    == Cardinality(Declared(p))
 
-\* what the package declares: ids by declared position
+\* what the package declares and a reader can read: ids by declared position
 Expected(p) ==
-    LET s == SetToSortSeq(Declared(p), LAMBDA a, b : a.decl < b.decl)
+    LET s == SetToSortSeq({x \in Declared(p) : x.present}, LAMBDA a, b : a.decl < b.decl)
     IN [i \in 1..Len(s) |-> s[i].id]
 
-\* a package the standards allow: distinct member names, the declared positions are
-\* 1..n, every declared reference denotes (URL path semantics) an existing member
+\* a package as generated: distinct member names, the declared positions are 1..n, every
+\* declared reference denotes (URL path semantics) the part's member name - which is
+\* in the archive unless the part is marked absent
 WellFormed(p) ==
     /\ \A x, y \in PartSet(p) : (x.name = y.name \/ x.id = y.id) => x = y
     /\ \A x, y \in PartSet(p) : (x # y) => x.zip # y.zip
@@ -89,31 +97,46 @@ WellFormed(p) ==
 \* ------------------------------ the reader ------------------------------
 Candidates(p) ==
     CASE OrderBy = "declared" -> SetToSortSeq(Declared(p), LAMBDA a, b : a.decl < b.decl)
-      [] OrderBy = "filename" -> SetToSortSeq(PartSet(p), LAMBDA a, b : a.name.n < b.name.n)
-      [] OrderBy = "zip"      -> SetToSortSeq(PartSet(p), LAMBDA a, b : a.zip < b.zip)
+      [] OrderBy = "filename" -> SetToSortSeq({x \in PartSet(p) : x.present}, LAMBDA a, b : a.name.n < b.name.n)
+      [] OrderBy = "zip"      -> SetToSortSeq({x \in PartSet(p) : x.present}, LAMBDA a, b : a.zip < b.zip)
+      \* "convention": walk the declared list, but when a reference denotes no member take the
+      \* member called <conventional dir>/<conventional stem><declared position> instead
+      [] OrderBy = "convention" -> SetToSortSeq(Declared(p), LAMBDA a, b : a.decl < b.decl)
 
-\* the member the reader opens for candidate x
+\* the member the reader opens for candidate x (empty: not readable)
 Opened(p, x) ==
-    IF OrderBy = "declared" THEN {y \in PartSet(p) : y.name = Resolve(p.base, x.href)}
-    ELSE {x}
+    LET byRef == {y \in PartSet(p) : y.present /\ y.name = Resolve(p.base, x.href)} IN
+    CASE OrderBy = "declared" -> byRef
+      [] OrderBy = "convention" ->
+            IF byRef # {} THEN byRef
+            ELSE {y \in PartSet(p) : y.present /\ y.name.dir = p.convdir /\ y.name.stem = p.convstem
+                                       /\ y.name.sp = "none" /\ y.name.n = x.decl}
+      [] OTHER -> {x}
 
 Init ==
     /\ pkg \in Packages
     /\ pages = <<>> /\ pos = 0
 
+\* index of the next readable candidate after position i (0: none)
+RECURSIVE NextReadable(_, _)
+NextReadable(p, i) ==
+    IF i >= Len(Candidates(p)) THEN 0
+    ELSE IF Opened(p, Candidates(p)[i + 1]) # {} THEN i + 1
+    ELSE NextReadable(p, i + 1)
+
+\* one page per step: the next candidate that can be read; unreadable ones are passed over
 ReadNext ==
-    /\ pos < Len(Candidates(pkg))
-    /\ LET x == Candidates(pkg)[pos + 1]
-           m == Opened(pkg, x)
-       IN pages' = IF m = {} THEN pages                       \* unreadable: skipped
-                   ELSE Append(pages, (CHOOSE y \in m : TRUE).id)
-    /\ pos' = pos + 1
+    /\ NextReadable(pkg, pos) > 0
+    /\ LET j == NextReadable(pkg, pos)
+           m == Opened(pkg, Candidates(pkg)[j])
+       IN /\ pages' = Append(pages, (CHOOSE y \in m : TRUE).id)
+          /\ pos' = j
     /\ UNCHANGED pkg
 
 Next == ReadNext
 Spec == Init /\ [][Next]_vars
 
-Done == pos = Len(Candidates(pkg))
+Done == NextReadable(pkg, pos) = 0
 
 \* ------------------------------ properties ------------------------------
 TypeOK == pos \in 0..Len(pkg.parts) /\ Len(pages) <= pos
@@ -127,7 +150,8 @@ DeclaredPrefix ==
 
 \* in the end: exactly the declared parts, in declared order - so the page count
 \* is the number of declared readable parts, every part has its own page, no
-\* part is shown twice and no undeclared part is shown at all
+\* part is shown twice, no undeclared part is shown at all, and a declared part whose
+\* member is absent is neither counted nor replaced by anything
 DeclaredOrder == Done => pages = Expected(pkg)
 
 OwnPage == \A i, j \in 1..Len(pages) : (pages[i] = pages[j]) => i = j
